@@ -328,3 +328,9 @@ mod test_dispatch {
         let _output = run_dispatch(&network, &train_sims, est_time_vec, true, true).unwrap();
     }
 }
+
+// Verification hook (inert unless built with `--cfg nrel_altrios_verif` or under `cargo kani`).
+#[cfg(any(kani, nrel_altrios_verif))]
+mod verif_hook {
+    include!(concat!(env!("NREL_ALTRIOS_VERIF_DIR"), "/hooks/meet_pass__dispatch.rs"));
+}
